@@ -8,6 +8,7 @@ import (
 	"strings"
 	"testing"
 	"time"
+	"verif/simrt"
 )
 
 func init() {
@@ -124,7 +125,19 @@ func setupC04(x *Ctx) {
 		o, cell = helloMatrixOpts(x)
 		x.SigAdd("hello-cell=" + cell)
 	}
-	s := newShip1(x, o)
+	// a timeout handed to the state machine is an observable of its own: since progress is no
+	// longer reported after the end of a connection, a timer left armed shows in nothing else
+	var s *ship1
+	hook := func(name string, args []any) {
+		if name != "ship.ShipConnection.handleState" || s == nil || len(args) < 2 || args[0] != any(s.conn) {
+			return
+		}
+		if to, ok := args[1].(bool); ok && to {
+			x.Ev("timeout-delivered", "U", "", int(s.state()))
+		}
+	}
+	simrt.ProbeHook.Store(&hook)
+	s = newShip1(x, o)
 	x.SigAdd("v=" + variant)
 	x.OnFinal(func() {
 		checkStateGraph(x, s.role, "U")
@@ -286,7 +299,7 @@ func checkStateGraph(x *Ctx, role, name string) {
 				continue
 			}
 			switch e.Kind {
-			case "state", "tx", "setup", "shipid", "payload", "closed", "tclose", "tx-rejected":
+			case "state", "tx", "setup", "shipid", "payload", "closed", "tclose", "tx-rejected", "timeout-delivered":
 				x.Violate("activity-after-terminal", e.Kind, fmt.Sprintf("%s event at %v, long after the terminal outcome %d at %v, with no input delivered (a timer was left armed); sequence %v", e.Kind, e.T, terminalState, terminalAt, seq))
 				return
 			}
